@@ -1,6 +1,6 @@
 \* C01/C02/C13 quick: all 4-tx graph families, minimal lease dimension, 2 block heights (3-4 in thorough).
 CONSTANTS
-  GraphIds = {1,2,3,4,5,6,7,8,9}
+  GraphIds = {1,2,3,4,5,6,7,8,9,12}
   MaxTip = 2
   Mat = 2
   LeaseIds = {1}
